@@ -648,6 +648,86 @@ Proof.
   apply wr_loop_no_panic; [assumption|lia].
 Qed.
 
+(** ** Pipeline (partial): flow names resolve, policy names resolve, and every nested filter of a kind whose
+    Validate() methods are modelled reaches no modelled panic site *)
+Lemma flow_ok_names decls : forall nodes, fst (flow_ok decls nodes) = true ->
+  forall n, In n nodes -> sget "filter" n = "END" \/ exists k, alookup (sget "filter" n) decls = Some k.
+Proof.
+  induction nodes as [|x t IH]; intros H n Hin; [contradiction|].
+  cbn [flow_ok] in H. destruct (flow_ok decls t) as [ok later] eqn:E.
+  destruct (String.eqb (sget "filter" x) "END") eqn:Ee.
+  - destruct Hin as [<-|Hin]; [left; now apply String.eqb_eq | apply IH; auto].
+  - destruct (alookup (sget "filter" x) decls) as [k|] eqn:El; [|cbn in H; discriminate].
+    cbn in H. apply andb_true_l in H.
+    destruct Hin as [<-|Hin]; [right; eauto | apply IH; auto].
+Qed.
+
+Lemma not_in_list k l x : in_list k l = false -> In x l -> String.eqb k x = false.
+Proof.
+  unfold in_list. intros H Hin. destruct (String.eqb k x) eqn:E; [|reflexivity].
+  assert (existsb (String.eqb k) l = true) by (apply existsb_exists; eauto). congruence.
+Qed.
+
+Lemma nested_In o q cat raws orcs x : In x (nested o q cat raws orcs) ->
+  exists raw ok, x = (nested_acc o q cat raw ok, sget "name" (v_image (validate_leaf o q cat raw)), raw_kind raw, validate_leaf o q cat raw).
+Proof.
+  unfold nested. intro H. apply in_map_iff in H. destruct H as [[raw [[ok n] k]] [<- Hin]]. eauto.
+Qed.
+
+Lemma nested_filter_no_init o raw ok :
+  nested_acc o ideal "filter" raw ok = true ->
+  may_init o ideal (v_ty (validate_leaf o ideal "filter" raw)) (raw_kind raw) (v_image (validate_leaf o ideal "filter" raw)) = false.
+Proof.
+  unfold nested_acc. destruct (in_list (raw_kind raw) cv_leaf) eqn:Ec; intro H.
+  - now destruct (leaf_valid_no_panic o "filter" raw H).
+  - cbn [q_null_entry ideal orb] in H. apply andb_true_r in H. apply negb_true_iff in H.
+    unfold may_init. rewrite H. cbn [orb].
+    assert (E : forall x, In x cv_leaf -> String.eqb (raw_kind raw) x = false) by (intros; eapply not_in_list; eauto).
+    unfold is_adaptor, is_builder.
+    rewrite (E "RateLimiter"), (E "Proxy"), (E "RequestAdaptor"), (E "ResponseAdaptor"), (E "RequestBuilder"), (E "ResponseBuilder");
+      try reflexivity; unfold cv_leaf; cbn; tauto.
+Qed.
+
+Theorem Pipeline_valid_implies_precond_partial o g :
+  pipeline_validate o ideal g = true ->
+  let fs := nested o ideal "filter" (aget "filters" g) (o_filters o) in
+  let decls := map (fun f => let '(_, n, k, _) := f in (n, k)) fs in
+  (forall n, In n (aget "flow" g) -> sget "filter" n = "END" \/ exists k, alookup (sget "filter" n) decls = Some k) /\
+  pipeline_may_init o ideal g = false /\
+  flow_namespace_bad decls g = false.
+Proof.
+  cbv zeta. unfold pipeline_validate. cbn [q_policy_ref q_flow_namespace ideal].
+  set (fs := nested o ideal "filter" (aget "filters" g) (o_filters o)).
+  set (rs := nested o ideal "resilience" (aget "resilience" g) (o_resil o)).
+  intro H. split_and.
+  assert (Ed : map (fun f : bool * string * string => (snd (fst f), snd f)) (map nested_decl fs) =
+               map (fun f => let '(_, n, k, _) := f in (n, k)) fs).
+  { rewrite map_map. apply map_ext. intros [[[a n] k] v]. reflexivity. }
+  rewrite Ed in *.
+  split; [|split].
+  - now apply flow_ok_names.
+  - unfold pipeline_may_init. fold fs. fold rs. apply not_bad. intro Hb. apply existsb_exists in Hb.
+    destruct Hb as [[[[acc n] k] v] [Hin Hx]].
+    pose proof Hin as Hin0.
+    apply nested_In in Hin. destruct Hin as [raw [ok Hx0]]. inversion Hx0; subst acc n k v. clear Hx0.
+    apply orb_true_iff in Hx. destruct Hx as [Hx|Hx].
+    + match goal with K : forallb (fun f => fst (fst f)) (map nested_decl fs) = true |- _ =>
+        rewrite forallb_forall in K; specialize (K (nested_decl (_, _, _, _)) (in_map nested_decl _ _ Hin0)); cbn in K end.
+      match goal with K : nested_acc _ _ _ _ _ = true |- _ => apply nested_filter_no_init in K; congruence end.
+    + match goal with K : forallb _ fs = true |- _ =>
+        rewrite forallb_forall in K; specialize (K _ Hin0); cbn in K end.
+      apply andb_true_iff in Hx. destruct Hx as [Hp Hr].
+      match goal with K : (if String.eqb _ "Proxy" then _ else true) = true |- _ => rewrite Hp in K; rewrite K in Hr end.
+      discriminate.
+  - unfold flow_namespace_bad. apply not_bad. intro Hb. apply existsb_exists in Hb. destruct Hb as [n [Hin Hn]].
+    match goal with K : forallb (fun n => _ || _ || _) (aget "flow" g) = true |- _ =>
+      rewrite forallb_forall in K; specialize (K _ Hin) end.
+    apply andb_true_iff in Hn. destruct Hn as [Hns Hk]. apply negb_true_iff in Hns.
+    match goal with K : (_ || _ || _) = true |- _ => rewrite Hns in K; cbn [orb] in K end.
+    destruct (alookup (sget "filter" n) _) as [k|]; [|discriminate].
+    match goal with K : is_builder k = true |- _ => rewrite K in Hk end. discriminate.
+Qed.
+
 (** every Validate() method that traverseGo reaches from a modelled kind is one of the hand-modelled ones *)
 Lemma validators_modelled : validators_covered ("Pipeline" :: cv_leaf) = true.
 Proof. vm_compute. reflexivity. Qed.
